@@ -3,11 +3,11 @@
 PROP="$1"; TIER="${2:-quick}"
 HERE="$(cd "$(dirname "$0")/.." && pwd)"; cd "$HERE"
 for d in seeded/$PROP-* seeded/own-$PROP-*; do
-  [ -f "$d/patch.diff" ] || continue
-  if ! git -C /repo apply --check "$d/patch.diff" 2>/dev/null; then echo "$(basename $d): PATCH DOES NOT APPLY"; continue; fi
-  git -C /repo apply "$d/patch.diff"
+  [ -f "$HERE/$d/patch.diff" ] || continue
+  if ! git -C /repo apply --check "$HERE/$d/patch.diff" 2>/dev/null; then echo "$(basename $d): PATCH DOES NOT APPLY"; continue; fi
+  git -C /repo apply "$HERE/$d/patch.diff"
   OUT="$(sh vk/run.sh $PROP $TIER 2>&1)"; RC=$?
-  git -C /repo apply -R "$d/patch.diff"
+  git -C /repo apply -R "$HERE/$d/patch.diff"
   V="$(echo "$OUT" | grep -c '^VIOLATION')"
   echo "$(basename $d): rc=$RC violations=$V $(echo "$OUT" | grep -A1 '^VIOLATION' | grep 'sig=' | head -2 | sed 's/input=.*//' | tr '\n' ' ')"
 done
